@@ -215,6 +215,11 @@ def row_operation_width(ck, F, rule, fn, floor=3):
             if ca_ is not None and atom_fn(ca_) in ("eq", "op_eq") and set(map(repr, atom_args(ca_))) == {repr(r1), repr(r2)}:
                 if p_:
                     bad.append("the exchange runs only when the two rows are the same row")
+            elif ca_ is not None and atom_fn(ca_) in ("eq", "op_eq") and len(atom_args(ca_)) == 2 and \
+                    len({repr(r1), repr(r2)} & set(map(repr, atom_args(ca_)))) == 1:
+                # `if s != j { swap rows s and k }`: a found row that happens to equal something else is left where it is
+                other = [a for a in atom_args(ca_) if repr(a) not in (repr(r1), repr(r2))]
+                bad.append("the exchange %s when a row equals %r, which is not the other row" % ("runs only" if p_ else "is skipped", other[0] if other else None))
             # (other path conditions - the search found a row, loop bounds - are not judged here)
         ck.inst(rule, "%s:pivot-exchange#%d" % (fn.rsplit("::", 1)[-1], nsw), not bad, e.site,
                 "rows %r and %r are exchanged whenever they differ%s" % (r1, r2, (" ; but " + "; ".join(bad[:2])) if bad else ""))
